@@ -306,3 +306,48 @@ def _mentions(fa, a: ast.AST, term) -> bool:
             except AnalysisError:
                 pass
     return False
+
+
+def check_last_key_wins(run: Run, ctx, m, cls, rule: str) -> None:
+    """Projection out of a dictionary literal: of several entries whose constant keys compare equal ({'a': p, 'a': m},
+    {1: x, True: y}) python keeps the last. A search over the keys that returns at its *first* match, running
+    forwards, selects another value than the original expression has. Decided on the construct only: a return of
+    (a copy of) v.values[<index taken from a loop over the keys>] inside the loop, whose iterable is not reversed.
+    Other ways of selecting (a table built from all entries, a search that keeps going) are not judged."""
+    from ..lib import unit
+    from ..model import ancestors as _anc
+    from ..terms import subterms
+
+    n_sel = 0
+    seen = set()
+    for name, h0 in sorted(cls.methods.items()):
+        if not (name.startswith("visit_Subscript") or name.startswith("visit_Attribute")):
+            continue
+        for h in unit(m, h0):
+            if h.qual in seen:
+                continue
+            seen.add(h.qual)
+            fa = ctx.analysis(h)
+            for s_, n_ in fa.returns():
+                if s_.value is None:
+                    continue
+                in_loop = any(isinstance(a, (ast.For, ast.While)) for a in _anc(s_))
+                t = strip_sites(fa.term_of(s_.value, n_))
+                for alt in unphi_terms(t):
+                    subs = [x for x in subterms(alt) if isinstance(x, tuple) and x and x[0] == "subscript" and isinstance(x[1], tuple) and x[1][0] == "attr" and x[1][2] == "values"]
+                    for sub in subs:
+                        idx = sub[2]
+                        # first match of a generator: next((i for i, k in <keys> if k.value == s), None)
+                        firsts = [x for x in subterms(idx) if isinstance(x, tuple) and x and x[0] == "app" and x[1] == ("global", "builtins.next") and x[2] and x[2][0][0] == "comp"]
+                        if firsts:
+                            its = [g[0] for g in firsts[0][2][0][3]][:1]
+                        elif in_loop:
+                            its = [x[1] for x in subterms(idx) if isinstance(x, tuple) and x and x[0] == "elem"]
+                        else:
+                            its = []
+                        if not its or not contains(its[0], lambda q: q[0] == "attr" and q[2] == "keys"):
+                            continue
+                        n_sel += 1
+                        backwards = contains(its[0], lambda q: q[0] == "app" and q[1] == ("global", "builtins.reversed")) or contains(its[0], lambda q: q[0] == "app" and q[1] == ("global", "builtins.range") and len(q[2]) == 3 and q[2][2] == ("const", -1))
+                        run.check(backwards, rule, h, s_, "the search over the keys of a dictionary literal finds the last entry with an equal key", f"{h.name} returns the value of the first entry whose key equals the selector ({show(its[0])[:80]} is searched forwards): for {{'a': p, 'a': m}}['a'] - or {{1: x, True: y}}[1] - python yields the last entry's value, the simplified query the first", "for index, key in reversed(list(enumerate(v.keys))): ..", show(alt)[:200], key="first of several equal dictionary keys selected")
+    run.notes["dict_first_match_selections"] = n_sel
